@@ -880,4 +880,27 @@ def contentNames (c : Content) : List Name :=
   omKeys c.vars ++ omKeys c.pars ++ omKeys c.derived ++ omKeys c.readouts ++ omKeys c.rxns
     ++ omKeys c.surs ++ surOuts c ++ omKeys c.data
 
+/-! ### building a model with a given content from scratch -/
+
+/-- the signature the function of component `n` was stated with, as the `given` of the call that adds it again -/
+def givenFor (sigs : List (Name × Gen.Sig)) (n : Name) : List (Name × Gen.Sig) :=
+  match sigs.lookup n with
+  | some g => [(n, g)]
+  | none => []
+
+/-- "a freshly built model with the same content": the `add_*` calls that build `c` on an empty `Model()`, container
+    by container, in the order the harness' fresh-model oracle uses (`c03ops.build_ops`), each function passed with the
+    signature it was stated with -/
+def rebuild (sigs : List (Name × Gen.Sig)) (c : Content) : List HOp :=
+  c.data.map (fun kv => HOp.edit (.add_data kv.1 kv.2) []) ++
+  c.vars.map (fun kv => HOp.edit (.add_variable kv.1 kv.2) (givenFor sigs kv.1)) ++
+  c.pars.map (fun kv => HOp.edit (.add_parameter kv.1 kv.2) (givenFor sigs kv.1)) ++
+  c.derived.map (fun kv => HOp.edit (.add_derived kv.1 kv.2) (givenFor sigs kv.1)) ++
+  c.rxns.map (fun kv => HOp.edit (.add_reaction kv.1 kv.2) (givenFor sigs kv.1)) ++
+  c.surs.map (fun kv => HOp.edit (.add_surrogate kv.1 kv.2) []) ++
+  c.readouts.map (fun kv => HOp.edit (.add_readout kv.1 kv.2) (givenFor sigs kv.1))
+
+/-- the freshly built model itself -/
+def freshState (s : State) : State := run init (rebuild s.sigs s.content)
+
 end Mxl.C03
